@@ -38,7 +38,7 @@ LANGS = ['darr', 'idl', 'julia_ver0', 'julia_ver1', 'mathematica', 'matlab', 'ma
 FOREIGN = ['idl', 'julia_ver0', 'julia_ver1', 'mathematica', 'matlab', 'maple', 'R', 'scilab']
 SHAPES = [(5,), (1,), (2, 3), (3, 1), (1, 4), (2, 3, 4), (4, 1, 2), (2, 3, 4, 5), (1, 2, 1, 3)]
 PATHMODES = ['rel', 'base', 'abs']
-MUST_HIT = ['after-history-on-live-handle', 'path:via-symlink-dotdot', 'path:handle-opened-by-relative-path'] + ['lang:' + l for l in LANGS] + ['path:' + p for p in PATHMODES] + ['offer-table', 'withheld', 'empty-array', 'rank:1', 'rank:2',
+MUST_HIT = ['after-history-on-live-handle', 'churn:ask-trunc-ask', 'churn:ask-append-ask', 'churn:stale-handle', 'path:base-via-symlink-dotdot', 'path:via-symlink-dotdot', 'path:handle-opened-by-relative-path'] + ['lang:' + l for l in LANGS] + ['path:' + p for p in PATHMODES] + ['offer-table', 'withheld', 'empty-array', 'rank:1', 'rank:2',
                                                                               'rank:3', 'rank:4', 'complex', 'float16', 'bigendian']
 COLUMN = {'IDL': ['idl'], 'Julia': ['julia_ver0', 'julia_ver1'], 'Maple': ['maple'], 'Mathematica': ['mathematica'], 'Matlab': ['matlab'],
           'Numpy': ['numpy', 'numpymemmap'], 'Python': ['python'], 'R': ['R'], 'Scilab': ['scilab']}
@@ -217,7 +217,23 @@ def _exec_prog(ctx, spec):
     with ctx.scratch() as d:
         root, apath, other = layout(d)
         ref = gens.build_array(gens.mkdtype(t, bo), shape, {'m': 'dist', 's': spec.get('seed', 1)})
-        if spec.get('churn') and shape[0] >= 2:
+        basepath = 'data/x.darr'
+        if spec.get('via') == 'base-symlink-dotdot' and pm == 'base':
+            # base-relative path with a '..' directly behind a symlinked directory: root/deep/sl -> root/data/sub, so that
+            # deep/sl/../x.darr is root/data/x.darr while a lexical collapse names the decoy root/deep/x.darr
+            out.cls('path:base-via-symlink-dotdot')
+            os.makedirs(os.path.join(root, 'deep'))
+            os.makedirs(os.path.join(root, 'data', 'sub'))
+            os.symlink(os.path.join(root, 'data', 'sub'), os.path.join(root, 'deep', 'sl'))
+            darr.asarray(os.path.join(root, 'deep', 'x.darr'), ref[::-1].copy() if ref.shape[0] > 1 else ref + 1)
+            basepath = 'deep/sl/../x.darr'
+        import pathlib
+        bparg = {0: basepath, 1: pathlib.Path(basepath), 2: basepath + '/'}[spec.get('seed', 1) % 3]
+        churn = spec.get('churn')
+        churn = 'grow-shrink-grow' if churn is True else churn
+        pargs = dict(abspath=(pm == 'abs'), basepath=(bparg if pm == 'base' else None))    # exactly the final question
+        stale = None
+        if churn == 'grow-shrink-grow' and shape[0] >= 2:
             # reach the same state through a history on one live handle (grow, ask for code, shrink, grow differently)
             out.cls('after-history-on-live-handle')
             a = darr.asarray(apath, ref[:1], accessmode='r+')
@@ -225,6 +241,27 @@ def _exec_prog(ctx, spec):
             a.readcode(lang)
             darr.truncate_array(a, 1)
             a.iterappend([ref[1:2], ref[2:]])
+        elif churn == 'ask-trunc-ask' and shape[0] >= 1:
+            # the same question asked before and after a truncation on one handle (nothing else in between)
+            out.cls('after-history-on-live-handle', 'churn:ask-trunc-ask')
+            a = darr.asarray(apath, np.concatenate([ref, ref[:1], ref[:1]]).astype(ref.dtype), accessmode='r+')
+            a.readcode(lang, **pargs)
+            a.readcodelanguages
+            darr.truncate_array(a, shape[0])
+        elif churn == 'ask-append-ask' and shape[0] >= 2:
+            out.cls('after-history-on-live-handle', 'churn:ask-append-ask')
+            a = darr.asarray(apath, ref[:1], accessmode='r+')
+            a.readcode(lang, **pargs)
+            a.append(ref[1:])
+        elif churn == 'stale-handle' and shape[0] >= 2:
+            # a second handle opened (and asked) before the array was changed through the first one
+            out.cls('after-history-on-live-handle', 'churn:stale-handle')
+            w = darr.asarray(apath, np.concatenate([ref[:1], ref[:1]]).astype(ref.dtype), accessmode='r+')
+            stale = darr.Array(apath)
+            stale.readcode(lang, **pargs)
+            darr.truncate_array(w, 1)
+            w.append(ref[1:])
+            a = stale
         else:
             a = darr.asarray(apath, ref)
         if spec.get('via') == 'symlink-dotdot':
@@ -246,9 +283,6 @@ def _exec_prog(ctx, spec):
                 ar = None
             finally:
                 os.chdir(old)
-        basepath = 'data/x.darr'
-        import pathlib
-        bparg = {0: basepath, 1: pathlib.Path(basepath), 2: basepath + '/'}[spec.get('seed', 1) % 3]
         code = a.readcode(lang, abspath=(pm == 'abs'), basepath=(bparg if pm == 'base' else None))
         if spec.get('via') == 'relative':
             code = relcode        # generated while the working directory was the one the relative path refers to
@@ -322,7 +356,18 @@ def _exec_prog(ctx, spec):
                 out.viol('opens-for-writing', tag, f'{pth!r} opened with mode {mode!r}')
         want_path = expected_path(pm, apath, basepath)
         paths = [p for p, _ in it.opened]
-        if not paths or any(p != want_path for p in paths):
+        datafile = os.path.join(apath, 'arrayvalues.bin')
+
+        def same_path(p):
+            # the requested spelling, or a lexically equivalent one that still names the data file
+            if p == want_path:
+                return True
+            try:
+                return os.path.normpath(p) == os.path.normpath(want_path) and os.path.isabs(p) == os.path.isabs(want_path) and \
+                    os.path.samefile(os.path.join(cwd, p), datafile)
+            except OSError:
+                return False
+        if not paths or any(not same_path(p) for p in paths):
             out.viol('wrong-path', f'{lang}:{pm}', f'code refers to {paths}, requested path is {want_path!r}')
         if empty or it_failed:
             return out
@@ -339,6 +384,11 @@ def prog_specs(seeds=(1,)):
             yield {'f': 'prog', 't': t, 'bo': bo, 'shape': list(shape), 'lang': lang, 'pm': pm, 'seed': seed}
     for t, shape, lang in itertools.product(NUMTYPES, [(4,), (3, 2)], LANGS):
         yield {'f': 'prog', 't': t, 'bo': '>', 'shape': list(shape), 'lang': lang, 'pm': 'rel', 'seed': 1, 'churn': True}
+    for t, shape, lang, pm, churn in itertools.product(['int32', 'float16', 'complex128'], [(4,), (3, 2)], LANGS, PATHMODES,
+                                                       ['ask-trunc-ask', 'ask-append-ask', 'stale-handle']):
+        yield {'f': 'prog', 't': t, 'bo': '<', 'shape': list(shape), 'lang': lang, 'pm': pm, 'seed': 4, 'churn': churn}
+    for t, shape, lang in itertools.product(['int16', 'float64', 'complex64'], [(3,), (3, 2)], LANGS):
+        yield {'f': 'prog', 't': t, 'bo': '<', 'shape': list(shape), 'lang': lang, 'pm': 'base', 'seed': 2, 'via': 'base-symlink-dotdot'}
     for t, lang, pm, via in itertools.product(['int16', 'float64', 'complex64'], LANGS, PATHMODES, ['symlink-dotdot', 'relative']):
         yield {'f': 'prog', 't': t, 'bo': '<', 'shape': [3, 2], 'lang': lang, 'pm': pm, 'seed': 2, 'via': via}
     for t, shape, lang in itertools.product(NUMTYPES, [(0,), (0, 3)], LANGS):
@@ -355,8 +405,8 @@ def st_prog(draw):
     rank = draw(st.integers(1, 4))
     return {'f': 'prog', 't': draw(st.sampled_from(NUMTYPES)), 'bo': draw(st.sampled_from('<>')),
             'shape': [draw(st.integers(1, 6)) for _ in range(rank)], 'lang': draw(st.sampled_from(LANGS)),
-            'pm': draw(st.sampled_from(PATHMODES)), 'seed': draw(st.integers(0, 2 ** 20)), 'churn': draw(st.booleans()),
-            'via': draw(st.sampled_from([None, None, 'symlink-dotdot', 'relative']))}
+            'pm': draw(st.sampled_from(PATHMODES)), 'seed': draw(st.integers(0, 2 ** 20)), 'churn': draw(st.sampled_from([None, None, True, 'ask-trunc-ask', 'ask-append-ask', 'stale-handle'])),
+            'via': draw(st.sampled_from([None, None, 'symlink-dotdot', 'relative', 'base-symlink-dotdot']))}
 
 
 def task_enum(ctx, col, shard, seeds):
